@@ -247,6 +247,54 @@ func NAME(a int, b int) (res int) {
 	return t.Get(a)
 }
 `))
+	// two back edges that update the loop variable differently
+	n = next()
+	out = append(out, tmpl(n, SigXI, true, []string{"multi-latch", "loop-continue"}, nil, `func NAME(xs []int, n int) (res int) {
+	i := 0
+	for i < len(xs) {
+		tick()
+		if xs[i] >= `+c("0", "1")+` {
+			res += xs[i]
+			i++
+			continue
+		}
+		res--
+		i = `+c("100", "n + 40", "i + 3")+`
+	}
+	return res*1000 + i
+}
+`))
+	// loops whose only exit is an if/else on the induction variable (the true arm leaves):
+	// the exit test feeds the derived trip count, and flipping it must not change that.
+	// One function per spelling of the test.
+	for _, tests := range [][2]string{{"i > n", "j < 0"}, {"i >= n", "j <= 0"}, {"n < i", "0 > j"}, {"n <= i", "0 >= j"}} {
+		n = next()
+		out = append(out, tmpl(n, SigII, true, []string{"loop-exit-ifelse", "loop-up"}, nil, `func NAME(a int, b int) (res int) {
+	n := a & 7
+	i := `+c("0", "1")+`
+	for {
+		if `+tests[0]+` {
+			break
+		} else {
+			tick()
+			res += i*`+c("3", "5")+` + b
+			i`+c("++", " += 2")+`
+		}
+	}
+	j := n
+	for {
+		if `+tests[1]+` {
+			break
+		} else {
+			tick()
+			res ^= j
+			j--
+		}
+	}
+	return res
+}
+`))
+	}
 	// two loop-invariant builtin calls in opposite arms of an ordered test inside a loop
 	// (both are hoisted to the pre-header; their order there must not follow source order)
 	n = next()
@@ -610,6 +658,27 @@ func NAME(a int, b int) (res int) {
 	}
 	out = append(out, mk("hoist-unsafe/len-of-mutated-named-map", SigMI, []string{"map-ops", "named-map", "hoist-unsafe"}, hoistNamed(true), hoistNamed(false)))
 
+	// a loop with two back edges: the `continue` arm steps the variable, the other one assigns
+	// it something else (so it is not an induction variable); P and Q differ in that value only
+	ml := func(v string) string {
+		return `func NAME(xs []int, n int) (res int) {
+	i := 0
+	for i < len(xs) {
+		tick()
+		if xs[i] >= 0 {
+			res += xs[i]
+			i++
+			continue
+		}
+		res--
+		i = ` + v + `
+	}
+	return res*1000 + i
+}
+`
+	}
+	out = append(out, mk("multi-latch/other-back-edge-value", SigXI, []string{"multi-latch", "loop-continue"}, ml("100"), ml("101")))
+	out = append(out, mk("multi-latch/other-back-edge-param", SigXI, []string{"multi-latch", "loop-continue"}, ml("n + 50"), ml("n + 60")))
 	gc := func(e string) string {
 		return `func catNAME[T ~string | ~int](x T, y T) T {
 	return ` + e + `
